@@ -1,6 +1,7 @@
 package main
 
 import (
+	"runtime"
 	"encoding/json"
 	"flag"
 	"fmt"
@@ -51,6 +52,18 @@ type KnownFinding struct {
 }
 
 func main() {
+	go func() {
+		var ms runtime.MemStats
+		for {
+			time.Sleep(300 * time.Millisecond)
+			runtime.ReadMemStats(&ms)
+			if ms.HeapAlloc > 10<<30 {
+				memAbort.Store(true)
+			} else if ms.HeapAlloc < 3<<30 && memAbort.Load() {
+				memAbort.Store(false)
+			}
+		}
+	}()
 	if len(os.Args) < 2 {
 		fmt.Fprintln(os.Stderr, "usage: govc check|list ...")
 		os.Exit(2)
